@@ -21,15 +21,20 @@ EXPLANATION = (
     "chain construction of NetworkGraph (pyrates/ir/circuit.py), whose siblings are found by enumerating every `d/dt * z = ...` template "
     "that a method adds to an operator's `equations` (today: _add_edge_buffer ODE branch, _add_matrix_delay cascade branch): "
     "R1 in each sibling the expression that combines the delay d and the spread s normalises (sympy) to (d/s)**2 and is rounded before it "
-    "is made an integer (the order n); the value registered for the stage coefficient traces back (through locals, conditional "
-    "expressions and list elements) to expressions that normalise to n/d with n the order variable; both siblings therefore agree with "
+    "is made an integer (the order n); the value registered for the stage coefficient traces back (provenance tracer of _delay_util: "
+    "locals, conditional expressions, per-slot lists, tuples, group records, loop variables over zip/enumerate/items, returns of "
+    "extracted helpers with their parameters mapped to the arguments) to expressions that normalise to n/d, where every value n can "
+    "take is a rounded (d/s)**2 or the dde_approx parameter and the stage count, traced back the same way, meets exactly this n (same "
+    "definitions, same iteration and branch) and no other non-constant value; both siblings therefore agree with "
     "each other and with the definition (their different floors for (d/s)**2 < 1 are recorded, not judged).  R2 every stage template has "
     "the stage variable on the lhs and its rhs normalises to a*prev - a*z with one and the same coefficient a, which is the registered "
     "rate constant (unit steady-state gain); the stage variable's name contains the stage counter; the stages run over range(lo, hi) with "
     "hi - lo = n; `prev` is the source (or the selected source elements) for the first stage and the previous stage's variable for every "
     "later stage; the buffered output is the last stage.  R3 in the scalar sibling the key that groups delay slots into shared chains "
-    "is built from the slot's own order element and rate element of one common zip, the chain's number of stages is the key component that "
-    "holds the order, and the chain's rate is read from the rate list at a slot of the chain's own group.  R4 in _collect_delays_from_edges the `discretize` "
+    "(G[key], G.setdefault(key, ..)) has one component whose traced values are the per-slot rate expressions and one whose traced values "
+    "are orders, both bound by the same loop over the slots; the chain's number of stages traces back through the keys of the grouping "
+    "dict to order values; and the chain's rate is read from a per-slot list at a slot of the chain's own group, or from the group's "
+    "own record where it was stored by the iteration that files the slot.  R4 in _collect_delays_from_edges the `discretize` "
     "flag handed to _process_delays for the delay is, on every path, the one set by the test of the same edge's spread (True exactly on "
     "the no-spread arm, or the value of that test itself), and the spread is converted with a flag that is False (the statements are "
     "looked for in the collector or in a helper extracted from its per-edge loop; De-Morgan'd tests are understood); _process_delays hands its flag to every _preprocess_delay call; _preprocess_delay returns the delay unchanged on "
@@ -270,10 +275,16 @@ def r1_order_and_rate(ctx, rid):
         rate_tr, leaves = _rate_leaves(ctx, f, cd.fields["value"])
         if not leaves:
             raise AnalysisError(f"{rid}: {f.qual}: the value of `{a_t}` traces back to constants only")
-        # the value that fixes the number of stages, and every name it passes through unchanged
+        # the value that fixes the number of stages is traced back until it meets the numerator of one of the rate expressions
         stage_n = _stage_count_name(ch)
-        stage_tr = U.trace(ctx, root, stage_n) if stage_n is not None else None
-        stage_idents = {U.name_ident(ctx, sc_, w) for sc_, w, sel in stage_tr.waypoints if not sel} if stage_tr is not None else set()
+        numerators = {}
+        for l in leaves:
+            nn_ = _numerator(ctx, l)
+            if nn_ is not None:
+                numerators[id(l.node)] = nn_
+        stops = {U.name_ident(ctx, l.scope, numerators[id(l.node)]) for l in leaves if id(l.node) in numerators}
+        broken = [l for l in leaves if id(l.node) not in numerators]
+        stage_tr = U.trace(ctx, root, stage_n, stop=stops) if stage_n is not None else None
         for l in leaves:
             expr, sc = l.node, l.scope
             st = _stmt(expr)
@@ -305,7 +316,10 @@ def r1_order_and_rate(ctx, rid):
             # n must be the order: every value it can take is a rounded (d/s)**2 or the explicit dde_approx parameter
             is_order, what = _is_order_value(ctx, sc, nn, sites)
             # ... and the same order that fixes the number of stages
-            tie = _order_tie(ctx, ch, sc, nn, stage_n, stage_tr, stage_idents)
+            if broken:
+                tie = (True, "not evaluated: another rate expression of this sibling is not of the form n/d (reported there)")
+            else:
+                tie = _order_tie(ctx, ch, sc, nn, stage_n, stage_tr, sites)
             facts["numerator"] = nn.id
             facts["numerator_values"] = what
             facts["tie_to_stage_count"] = tie[1]
@@ -333,19 +347,60 @@ def _stage_count_name(ch: Chain) -> Optional[ast.Name]:
     return None
 
 
-def _order_tie(ctx, ch: Chain, sc, num: ast.Name, stage_n: Optional[ast.Name], stage_tr, stage_idents):
+def _numerator(ctx, l) -> Optional[ast.Name]:
+    """The name n of a rate expression that normalises to n/d (None otherwise)."""
+    others = {}
+
+    def leaf(n):
+        if isinstance(n, ast.Name):
+            r = _role(ctx, l.scope, n)
+            if r == "D":
+                return D
+            if r == "S":
+                return S
+            others[n.id] = n
+            return sp.Symbol(n.id, positive=True)
+        return None
+    try:
+        r = symx.to_sympy(l.node, leaf=leaf)
+    except symx.Unsupported:
+        return None
+    num = sp.simplify(r * D)
+    return others[str(num)] if num.is_Symbol and str(num) in others else None
+
+
+def _order_tie(ctx, ch: Chain, sc, num: ast.Name, stage_n: Optional[ast.Name], stage_tr, sites):
     """Is the numerator of the rate the same order that fixes the number of stages?  The value of the stage count is traced back
-    (through the grouping key, per-slot lists, tuples, helper returns); the numerator must be one of the names that value passed
-    through unchanged (same scope, same name, same reaching definitions)."""
+    (through the grouping key, per-slot lists, tuples, helper returns) until it meets the numerator of a rate expression (same
+    scope, same name, same reaching definitions).  The tie holds when (1) this numerator is met, in the same loop iteration and
+    on compatible branches as the rate expression, and (2) the stage count cannot take any other non-constant value."""
     if stage_n is None:
         return False, "stage loop is not a range over a name"
-    if U.name_ident(ctx, sc, num) in stage_idents:
-        return True, f"stages: range over `{stage_n.id}`, whose value passes through `{num.id}` ({sc.f.qualname}) with the same definitions"
     if stage_tr.opaque():
         l = stage_tr.opaque()[0]
         raise AnalysisError(f"{ch.f.qual}: the stage count `{stage_n.id}` cannot be traced (stops at `{ast.unparse(l.node)}` in {l.scope.f.qualname})")
-    vals = sorted({ast.unparse(l.node) for l in stage_tr.values()})
-    return False, f"stages: range over `{stage_n.id}`, which takes the values {vals}; none of them is the rate's numerator `{num.id}`"
+    ident = U.name_ident(ctx, sc, num)
+    hits = [l for l in stage_tr.stops() if U.name_ident(ctx, l.scope, l.node) == ident]
+    extra = [l for l in stage_tr.values() if l.kind != "stop"]
+    if extra:
+        unknown = [l for l in extra if not (l.kind == "param" or isinstance(l.node, (ast.BinOp, ast.Name)) or _is_order_leaf(l, sites))]
+        if unknown:
+            raise AnalysisError(f"{ch.f.qual}: the stage count `{stage_n.id}` can be `{ast.unparse(unknown[0].node)}` ({unknown[0].scope.f.qualname}), "
+                                f"which is not the numerator of a rate expression (unrecognised form)")
+        return False, (f"stages: range over `{stage_n.id}`, which can also be {sorted({ast.unparse(l.node) for l in extra})}, a value that is not the "
+                       f"numerator of the corresponding rate")
+    if not hits:
+        vals = sorted({ast.unparse(l.node) for l in stage_tr.values()})
+        return False, f"stages: range over `{stage_n.id}`, which takes the values {vals}; none of them is the rate's numerator `{num.id}`"
+    st_num = _stmt(num)
+    for h in hits:
+        st_h = _stmt(h.node)
+        if h.scope.key() != sc.key():
+            continue
+        if U.loop_of(st_h) is U.loop_of(st_num) and U.compatible(ctx, sc.f, U.branch_chain(st_h), U.branch_chain(st_num)):
+            return True, (f"stages: range over `{stage_n.id}`, whose value is `{num.id}` of `{norm(st_h, 50)}` ({sc.f.qualname}): same definitions, same "
+                          f"iteration as the rate")
+    return False, f"`{num.id}` fixes the stage count only in another iteration / on another branch than the one that computes this rate"
 
 
 # ---------------------------------------------------------------------------------------------
